@@ -180,6 +180,8 @@ structure St where
   prog : List (Entry MCond Out) := []
   rules : List SRule := []
   fb : Out := ⟨0, 0, false⟩
+  /-- `consts.MaxMatchSetLen` as the harness read it from the real code (`limit N` line) -/
+  limit : Nat := 1024
 
 def outStr : Option Out → String
   | some o => s!"out={o.outbound} mark={o.mark} must={boolStr o.must}"
@@ -195,7 +197,11 @@ def splitName (ts : List String) : List String × Option (String × String) :=
 def evalPkt (st : St) (p : Pkt) (nameTok : Option (String × String)) : String :=
   let real : String := match nameTok, st.built with
     | some (nm, rx), some b =>
-      if nm = "-" then "" else
+      if nm = "-" then
+        -- no domain known: `Match` does not ask the domain matcher (Compose.empty_name_satisfies_no_domain_condition)
+        let r := matchGuarded b ⟨st.rules, st.fb, st.groups⟩ p [] []
+        if r == matchAt st.rules st.fb p then "" else " EMPTY-NAME-DIFFERS " ++ outStr r
+      else
       match hexToBytes? nm with
       | some name =>
         let rxHits := if rx = "-" then [] else (rx.splitOn ",").filterMap String.toNat?
@@ -225,13 +231,13 @@ def step (st : St) (line : String) : St × String :=
       | some (groups, []) =>
         let prog := compileProgram rules fb
         let P : DProgram := ⟨rules, fb, groups⟩
-        let built := match (C11.Matcher.replay 1024 (addCalls P)).build with
+        let built := match (C11.Matcher.replay st.limit (addCalls P)).build with
           | .ok b => some b
           | .error _ => none
-        -- the builder refuses a program of more than MaxMatchSetLen (1024) match sets, fallback entry
+        -- the builder refuses a program of more than MaxMatchSetLen (`st.limit`) match sets, fallback entry
         -- included; `BuildUserspace` additionally fails when the domain matcher cannot be built
         ({ st with prog := prog, rules := rules, fb := fb, groups := groups, built := built },
-          if prog.length > 1024 then "err:build" else if built.isSome then "ok" else "err:build")
+          if prog.length > st.limit then "err:build" else if built.isSome then "ok" else "err:build")
       | _ => (st, "bad-op")
     | _ => (st, "bad-op")
   | "pkt" :: ts =>
@@ -245,9 +251,9 @@ def step (st : St) (line : String) : St × String :=
     match pRoute ts with
     | some a => (st, evalPkt st (pktOfRoute a) nameTok)
     | none => (st, "bad-op")
-  | ["route", is4, dst] =>
-    match hexToNat? dst with
-    | some d => (st, s!"ipver={routeIpVersion (is4 == "1") d}")
+  | ["limit", n] =>
+    match n.toNat? with
+    | some k => ({ st with limit := k }, s!"limit={k}")
     | none => (st, "bad-op")
   | _ => (st, "bad-op")
 
